@@ -67,6 +67,7 @@ class Executor:
         self.cache_owner = None  # "own" after an ok scan, "foreign" after set_version(other), None unknown
         self.pending_fault = None  # C10: description of the last cache fault not yet followed by a scan
         self.last_scan_report = None
+        self.tainted = {}       # path key -> forged checksum planted by cache_identity (with markers)
         self.fresh_memo = {}
         self.fresh_memo_on = False   # sweeps restore the same tree over and over: one reference per tree state
         self.lib_history = []
@@ -256,6 +257,9 @@ class Executor:
         if foreign and op.get("marker", True):
             # a cache of another version must not be reused: make reuse visible
             _plant_markers(d, "VER")
+        elif not foreign:
+            _strip_markers(d)   # a same-version cache is reusable: nothing planted may stay in it
+            self.tainted.clear()
         from .world import write_bytes
         write_bytes(w.cache_file, json.dumps(d, indent=2).encode())
         if foreign:
@@ -302,11 +306,13 @@ class Executor:
             if os.path.isfile(full) and other["checksum"] in O.checksums_of(read_bytes(full)):
                 return {"noop": "forged_checksum_matches_current_content"}
             e["checksum"] = other["checksum"]
+            self.tainted[key] = e["checksum"]
         elif what == "path":
             newkey = op.get("newkey") or ("moved/" + key)
             if newkey in files:
                 return {"noop": "key_exists"}
             files[newkey] = files.pop(key)
+            self.tainted[newkey] = e["checksum"]
         else:
             raise KeyError(what)
         from .world import write_bytes
@@ -350,11 +356,41 @@ class Executor:
             self.fresh_memo[key] = (obs, F, markers)
         return obs, F, markers
 
+    def neutralise_taint(self):
+        """A forged identity field is a detectable fault only while it is wrong.  Later edits
+        (swap, rename, write) can make the forged checksum the right one for the file now stored
+        under that key; reusing the entry is then what the statement allows and nothing on disk
+        can reveal the planted markers.  Such entries are removed from the cache before the scan
+        (equivalent to never having been planted)."""
+        if not self.tainted:
+            return
+        w = self.world
+        d = w.cache_json()
+        try:
+            files = d["codebase"]["files"]
+        except (TypeError, KeyError):
+            self.tainted.clear()
+            return
+        changed = False
+        for key, chk in list(self.tainted.items()):
+            e = files.get(key) if isinstance(files, dict) else None
+            full = w.p(key)
+            if (isinstance(e, dict) and e.get("checksum") == chk and os.path.isfile(full)
+                    and chk in O.checksums_of(read_bytes(full))):
+                del files[key]
+                del self.tainted[key]
+                changed = True
+                self.probe("c09_taint_became_legitimate")
+        if changed:
+            from .world import write_bytes
+            write_bytes(w.cache_file, json.dumps(d, indent=2).encode())
+
     def do_scan(self, idx, op):
         w = self.world
         prop = self.prop
         nonce = op["nonce"]
         fault = op.get("fault")
+        self.neutralise_taint()
         pre_cache = w.cache_json()
         pre_class = w.cache_class()
         obs = w.scan(nonce, fault=fault, spelling=op.get("spelling"), verbose=op.get("verbose", False),
@@ -375,6 +411,8 @@ class Executor:
         # ---- fault-free scan: oracles ----
         from .props import common
         common.after_scan(self, idx, op, obs, C, raw, pre_cache, pre_class)
+        if obs["outcome"] == "ok":
+            self.tainted.clear()   # the scan rewrote the cache
         return obs
 
     def do_check(self, idx, op):
@@ -407,6 +445,16 @@ class Executor:
         return c06.do_scan_inproc(self, idx, op)
 
     def at_end(self):
+        pass
+
+
+def _strip_markers(d):
+    import re
+    try:
+        for e in d["codebase"]["files"].values():
+            for m in e["measurements"]:
+                m["unit_name"] = re.sub(r"^(MARK_VER_|MARK_)+", "", m["unit_name"])
+    except (KeyError, TypeError, AttributeError):
         pass
 
 
